@@ -658,6 +658,23 @@ def fold(pid):
                         res.ok({"function": path, "returns": a[:90]}, nontrivial=True)
                     else:
                         res.fail(Finding(res.rule, "R-FOLD/%s/unfolded-return" % path, "the folding function can return %s, which is not the result of an upper-casing call: characters on that path are compared without case folding (names that differ only by case are then distinct, or sorted apart)" % a[:80], f, span))
+        # the order of names is defined on UPPER-case forms (MS-CFB 2.6.4): nothing in the name module folds to lower
+        # case (between 'Z' and 'a' lie [ \\ ] ^ _ `, which sort on the other side of the letters then), and the
+        # exception table is used as written (key -> upper-case form), not through a transforming adaptor
+        nl = 0
+        for g2 in ctx.fx.fns.values():
+            if not g2.path.startswith("internal::path::"):
+                continue
+            v2 = view(ctx, g2)
+            pr2 = None
+            for bb2, c2 in sorted(v2.calls.items()):
+                short = c2.name.split("::")[-1]
+                if short in ("to_ascii_lowercase", "to_lowercase", "make_ascii_lowercase", "eq_ignore_ascii_case") and "compare" in g2.path:
+                    nl += 1
+                    res.fail(Finding(res.rule, "R-FOLD/%s/lower-case-folding" % g2.path, "%s folds with %s: the sibling order of MS-CFB is defined on upper-case forms, and for the characters between 'Z' and 'a' ([ \\ ] ^ _ `) the lower-case order differs" % (g2.path.split("::")[-1], short), g2, c2.term["span"]))
+                if "CaseMapper" in g2.path and g2.path.endswith("::new") and short in ("map", "filter", "filter_map", "rev", "skip", "take", "zip", "flat_map"):
+                    nl += 1
+                    res.fail(Finding(res.rule, "R-FOLD/%s/table-transformed" % g2.path, "CaseMapper::new builds its map through .%s(..): the exception table is a list of (character, upper-case form) pairs and must be used as written" % short, g2, c2.term["span"]))
         res.floor("folded returns", n, ctx.table("floors").get("fold_returns", 0))
         return res
     return run
@@ -1172,6 +1189,16 @@ def namelimit(pid):
                     res.fail(Finding(res.rule, "R-NAMELIMIT/%s/length-not-in-utf16-units" % f.path, "validate_name refuses over-long names by %s, which is not a count of UTF-16 code units: a name of at most 31 chars but more than 31 units passes, and the 32-unit name field cannot hold it (the entry is refused or truncated after it was allocated and linked)" % expr[:100], f, c.term["span"]))
                 else:
                     res.ok({"function": f.path, "line": c.line, "length_measured_as": expr[:100], "note": "way of measuring not recognised: no verdict"})
+        # the set of forbidden characters is walked whole
+        v_ = view(ctx, f)
+        pr_ = Prov(f)
+        for bb_, c_ in sorted(v_.calls.items()):
+            short_ = c_.name.split("::")[-1]
+            args_ = [pr_.operand(a_) for a_ in c_.term["args"]]
+            if not args_ or "param:name" in args_[0]:
+                continue        # an adaptor on the name itself (the length test's take(MAX + 1))
+            if short_ in ("skip", "take", "step_by", "filter", "nth", "split_at", "split_first", "split_last", "chunks") or (short_ == "index" and len(args_) > 1 and re.match(r"^Range", args_[1])):
+                res.fail(Finding(res.rule, "R-NAMELIMIT/%s/forbidden-set-narrowed" % f.path, "validate_name walks only part of its list of forbidden characters (.%s): names with the characters left out are accepted and stored" % short_, f, c_.term["span"]))
         res.floor("length refusals in validate_name", n, ctx.table("floors").get("namelimit_sites", 0))
         return res
     return run
@@ -1554,6 +1581,99 @@ def wholetable(pid):
                     n += 1
                 if short in ("skip", "take", "step_by", "filter", "skip_while", "take_while", "nth", "split_at", "chunks", "split_first", "split_last") and c.term["args"] and re.search(tables, pr.operand(c.term["args"][0])):
                     res.fail(Finding(res.rule, "R-WHOLE/%s/%s" % (f.path, short), "%s walks %s through .%s(..): the elements left out are neither checked under strict validation nor repaired under permissive validation" % (f.path.split("::")[-1], re.search(tables, pr.operand(c.term["args"][0])).group(0)[6:], short), f, c.term["span"]))
+        # the parser reads its tables whole as well: the FAT sectors are taken from the entire DIFAT (not from as many
+        # entries as a header count says - a wrong count is a tolerated deviation), and every counted read loop starts at 0
+        nr = 0
+        for f in ctx.fx.fns.values():
+            if not (f.path.endswith("::open_internal") or f.path.endswith("Header::read_from") or f.path.endswith("DirEntry::read_from") or f.path.endswith("SectorInit::initialize")):
+                continue
+            v = view(ctx, f)
+            pr = Prov(f)
+            for bb, c in sorted(v.calls.items()):
+                short = c.name.split("::")[-1]
+                args = [pr.operand(a) for a in c.term["args"]]
+                if short in ("skip", "take", "step_by", "filter", "nth") and args and re.search(r"(iter|iter_mut|into_iter)\((var:|param:self\.)(difat|fat|minifat|difat_sector_ids|dir_entries)\b", args[0]):
+                    nr += 1
+                    res.fail(Finding(res.rule, "R-WHOLE/%s/%s" % (f.path, short), "%s walks a table through .%s(..): what the header says about its size is only a (tolerated) claim, the table itself is what was read" % (f.path.split("::")[-1], short), f, c.term["span"]))
+                if short == "into_iter" and args:
+                    m = re.match(r"^Range::Range\((.*)\)$", args[0])
+                    if m:
+                        from prov import _split_top
+                        ps = _split_top(m.group(1))
+                        if len(ps) == 2:
+                            nr += 1
+                            if ps[0] != "const:0" and re.match(r"^const:\d+$", ps[0]):
+                                res.fail(Finding(res.rule, "R-WHOLE/%s/range-start" % f.path, "a counted read / initialisation loop in %s runs over %s..%s: the first %s element(s) are never read or written" % (f.path.split("::")[-1], ps[0][6:], ps[1][:50], ps[0][6:]), f, c.term["span"]))
+                            elif f.path.endswith("SectorInit::initialize") and "Sector::len(param:sector)" not in ps[1]:
+                                res.fail(Finding(res.rule, "R-WHOLE/%s/init-count-not-from-sector" % f.path, "SectorInit::initialize fills %s units: the count does not come from the sector's own length, so a sector of the other size is only partly initialised (the rest keeps whatever the file held there)" % ps[1][:60], f, c.term["span"]))
+                            else:
+                                res.ok({"function": f.path, "range": args[0][:80]})
+        res.floor("counted loops of the parser and the initialisers", nr, ctx.table("floors").get("whole_ranges", 0))
         res.floor("table iterations in validate functions", n, ctx.table("floors").get("whole_iters", 0))
+        return res
+    return run
+
+
+def fmtconst(pid):
+    """R-FMTCONST: the per-version constants of the format (sector shift, version number, the width of the stream-size
+    field) are returned by small table functions; each arm returns the value MS-CFB fixes (rules/fmtconst.json)."""
+    def run(ctx):
+        res = RuleResult("R-FMTCONST(%s)" % pid, "Version::sector_shift / number / from_number / stream_len_mask return, per version, the values MS-CFB fixes")
+        n = 0
+        for fp, want in ctx.table("fmtconst").get("tables", {}).items():
+            f = ctx.fx.fns.get(fp)
+            if f is None:
+                res.gone.append(fp)
+                continue
+            pr = Prov(f)
+            g = _guards(ctx, f)
+            got = {}
+            for bb, blk in enumerate(f.blocks):
+                if blk["cleanup"]:
+                    continue
+                for i, st in enumerate(blk["stmts"]):
+                    if st["s"] == "assign" and st["place"]["local"] == 0 and not st["place"]["proj"]:
+                        for a in g.atoms_at(("s", bb, i)):
+                            got.setdefault(a, set()).add(pr._def((bb, i, st), 0, ()))
+            for cond, val in want.items():
+                if cond not in got:
+                    continue
+                n += 1
+                if got[cond] == {val}:
+                    res.ok({"function": fp, "when": cond, "returns": val})
+                else:
+                    res.fail(Finding(res.rule, "R-FMTCONST/%s/%s" % (fp, cond.split()[-1]), "%s returns %s where %s; the format fixes %s" % (fp.split("::")[-1], "/".join(sorted(got[cond]))[:60], cond, val), f))
+        res.floor("format constants", n, ctx.table("floors").get("fmtconst_sites", 0))
+        return res
+    return run
+
+
+def handlekind(pid):
+    """R-HANDLEKIND: a stream handle is only ever made for an entry that was found to be a stream.  Stream::new in the
+    API layer lies behind `obj_type is ObjType::Stream` (or behind the creation of that very entry as a stream).  A
+    handle on a storage or on the root reads and resizes the mini stream's own chain as if it were a user stream."""
+    def run(ctx):
+        res = RuleResult("R-HANDLEKIND(%s)" % pid, "every Stream::new on an existing entry in the API layer is dominated by a test that established obj_type is ObjType::Stream")
+        n = 0
+        for f in ctx.fx.fns.values():
+            if f.path.startswith("internal::"):
+                continue
+            v = view(ctx, f)
+            pr = None
+            for bb, c in sorted(v.calls.items()):
+                if not re.search(r"internal::stream::Stream::<F>::new$", c.name) or len(c.term["args"]) < 2:
+                    continue
+                pr = pr or Prov(f)
+                idp = pr.operand(c.term["args"][1])
+                n += 1
+                atoms = _guards(ctx, f).atoms_at(("t", bb))
+                fresh = re.search(r"insert_dir_entry\(|insert_child_entry\(", idp) is not None
+                if fresh:
+                    res.ok({"function": f.path, "line": c.line, "entry": "just created as a stream"}, nontrivial=True)
+                elif any(re.search(r" is ObjType::Stream$", a) for a in atoms):
+                    res.ok({"function": f.path, "line": c.line, "entry": "found to be a stream"}, nontrivial=True)
+                else:
+                    res.fail(Finding(res.rule, "R-HANDLEKIND/%s/handle-on-unchecked-entry" % f.path, "%s makes a stream handle for entry %s without having established that it is a stream (type tests on the path: %s): for a storage or the root the handle reads, resizes or frees a chain that is not a user stream's" % (f.path.split("::")[-1], idp[:50], "; ".join(a[-50:] for a in atoms if "ObjType::" in a)[:150] or "none"), f, c.term["span"]))
+        res.floor("stream handles made in the API layer", n, ctx.table("floors").get("handlekind_sites", 0))
         return res
     return run
